@@ -241,6 +241,32 @@ def Spec.step (s : Spec) (ev : Ev) (ds : List Dlv) (cs : List (Nat × Nat)) : Ex
   checkQuiescent rds3
   pure { s with rds := rds3 }
 
+/-! ### publisher switch (always-available streams: the only streams whose sub stream can be replaced)
+
+`SubStream.WriteUnit` takes `Stream.mutex.RLock()`, checks `Stream.subStream == ss` and dispatches — one atomic
+step w.r.t. `SubStream.Initialize`, which installs the new sub stream under `Stream.mutex.Lock()`.  Publishers are
+numbered in the order they took over (0 = the offline filler). -/
+
+structure PubSt where
+  cur : Nat := 0
+deriving Repr
+
+inductive PubEv where
+  /-- a new publisher's sub stream is initialised and becomes the current one -/
+  | pub
+  /-- publisher `p` writes a unit -/
+  | write (p tag : Nat)
+  /-- publisher `p` starts a write while the replacing `Initialize` is already waiting for the stream lock:
+  the write can only take effect after the switch -/
+  | race (p tag : Nat)
+deriving Repr
+
+/-- new state and the tag delivered to the readers (if any) -/
+def pubStep (s : PubSt) : PubEv → PubSt × Option Nat
+  | .pub => ({ cur := s.cur + 1 }, none)
+  | .write p tag => (s, if p == s.cur then some tag else none)
+  | .race p tag => ({ cur := s.cur + 1 }, if p == s.cur + 1 then some tag else none)
+
 /-- the retained units, re-read at the end of the history: `reader:payload/payload/…;…` -/
 def fmtRetained (l : List (Nat × List String)) : String :=
   if l.isEmpty then "k=-" else
